@@ -82,8 +82,8 @@ def parse_histories(text):
             if kind not in ssz_ref.KINDS:
                 raise HistoryError("line %d: unknown kind %r" % (lineno, kind))
             n = _parse_int(n_text)
-            if n < 1:
-                raise HistoryError("line %d: N must be at least 1" % lineno)
+            if n < 0:
+                raise HistoryError("line %d: N must not be negative" % lineno)
             if map_name not in MAPS:
                 raise HistoryError("line %d: unknown map %r" % (lineno, map_name))
             histories.append(History(len(histories), kind, n, map_name, []))
